@@ -234,7 +234,7 @@ macro_rules! impl_rank_small_sel {
                     inventory.push(0);
                     inventory_begin.push(0);
                 } else {
-                    inventory_begin.push(small_counters.as_ref().len());
+                    inventory_begin.push(inventory.len());
                 }
 
                 let inventory = inventory.into_boxed_slice();
